@@ -66,6 +66,8 @@ pub fn build_device(label: &str, desc: &DeviceDescription, opts: &BuildOptions) 
         if mb.recv_size > 0 || mb.send_size > 0 {
             let coe = (mb.protocols & proto::COE != 0).then(CoeServer::new);
             dev.mailbox = Some(Mailbox::new(coe));
+            // like a real ESC application, the device insists on the layout its EEPROM announces
+            dev.mailbox_expect = Some([mb.recv_offset, mb.recv_size, mb.send_offset, mb.send_size]);
         }
     }
     dev
